@@ -1543,15 +1543,33 @@ def _work_factory(case):
 
 
 def _work(case):
-    global _CUR
+    global _CUR, CASE_TIMEOUT
     case = as_case(case)
     lenient = bool(case.get("lenient"))
     ops = case["ops"]
     if case.get("factory"):
-        return _work_factory(case)
+        res = _work_factory(case)
+        if "exc:CaseTimeout" in (res.get("rec") or {}).get("outs", []):
+            saved = CASE_TIMEOUT     # wall-clock limit: retry once with ten times the limit (see below)
+            CASE_TIMEOUT = saved * 10
+            try:
+                res = _work_factory(case)
+            finally:
+                CASE_TIMEOUT = saved
+        return res
     _CUR = case.get("env", 0) or 0
     try:
         rec = run_real(ops, lenient, case.get("layout", 0) or 0, case.get("companion"))
+        if rec.get("init_exc") == "CaseTimeout" or "exc:CaseTimeout" in rec.get("outs", []):
+            # the per-case limit is wall-clock time: on an overloaded machine a healthy case can exceed it.  Only a
+            # hang that REPEATS under a ten times larger limit is a finding; otherwise the second run is the case.
+            saved = CASE_TIMEOUT
+            CASE_TIMEOUT = saved * 10
+            try:
+                rec = run_real(ops, lenient, case.get("layout", 0) or 0, case.get("companion"))
+                rec["timeout_retried"] = True
+            finally:
+                CASE_TIMEOUT = saved
         rec["real_answer"] = real_answer(rec)      # canonical form, computed in the environment of the case
         viol = analyse(rec)
         return {"rec": rec, "viol": viol, "req": model_request(rec), "key": nontrivial_key(rec), "crash": None}
